@@ -1,4 +1,4 @@
-CONSTANT NAlpha = 5
+CONSTANT NAlpha = 6
 SPECIFICATION Spec
 INVARIANT SpecOk
 INVARIANT Emit
